@@ -594,14 +594,19 @@ func emitWriterHooks(n int, evs []kafka.VerifEvent, impl string) {
 	if !strings.Contains(impl, "close=ret") {
 		return
 	}
+	// the hook recorder numbers objects by address; an address can be handed to a later object of the same type once the
+	// earlier one is garbage: the creation event of an object (NewPW, NewBatch) therefore always opens a new identity
 	ids := map[string]map[string]int{"p": {}, "q": {}, "b": {}}
-	id := func(kind, raw string) int {
+	next := map[string]int{}
+	idf := func(kind, raw string, fresh bool) int {
 		m := ids[kind]
-		if _, ok := m[raw]; !ok {
-			m[raw] = len(m) + 1
+		if _, ok := m[raw]; !ok || fresh {
+			next[kind]++
+			m[raw] = next[kind]
 		}
 		return m[raw]
 	}
+	id := func(kind, raw string) int { return idf(kind, raw, false) }
 	var toks []string
 	for _, e := range evs {
 		a := e.Args
@@ -619,9 +624,9 @@ func emitWriterHooks(n int, evs []kafka.VerifEvent, impl string) {
 				toks = append(toks, "L")
 			}
 		case "W.NewPW":
-			toks = append(toks, fmt.Sprintf("P%d:%d", id("p", a[1]), id("q", a[2])))
+			toks = append(toks, fmt.Sprintf("P%d:%d", idf("p", a[1], true), idf("q", a[2], true)))
 		case "PW.NewBatch":
-			toks = append(toks, fmt.Sprintf("N%d", id("b", a[1])))
+			toks = append(toks, fmt.Sprintf("N%d", idf("b", a[1], true)))
 		case "PW.Attempt":
 			toks = append(toks, fmt.Sprintf("A%d", id("b", a[1])))
 		case "B.Completion":
